@@ -450,6 +450,11 @@ func (s *Stream) handleFrame(f Frame) (err error) {
 		}
 	}
 
+	if err != nil && s.state != StateActive {
+		// We already sent a Close frame; a second one must never reach the wire.
+		return err
+	}
+
 	if err != nil {
 		s.state = StateClosedByUs
 		// TODO consider flushing the close
